@@ -51,7 +51,10 @@ let () =
         (* the header fields the harness client sends, in its order *)
         let hs = (match get 0 with Some h -> [ (Http.HKnown TablesHttp.coq_H_Host, bytes_of_string h) ] | None -> [])
                  @ (match get 3 with Some x -> [ (Http.coq_XFF, bytes_of_string x) ] | None -> [])
-                 @ (if ws then [ (Http.HKnown TablesHttp.coq_H_Upgrade, bytes_of_string "websocket") ]
+                 @ (if ws then [ (Http.HKnown TablesHttp.coq_H_Upgrade, bytes_of_string "websocket");
+                                 (Http.HKnown TablesHttp.coq_H_Connection, bytes_of_string "Upgrade");
+                                 (Http.hname_of (bytes_of_string "Sec-WebSocket-Key"), bytes_of_string "dGhlIHNhbXBsZSBub25jZQ==");
+                                 (Http.hname_of (bytes_of_string "Sec-WebSocket-Version"), bytes_of_string "13") ]
                     else [ (Http.HKnown TablesHttp.coq_H_Connection, bytes_of_string "close") ]) in
         let query = match Stdlib.String.index_opt target '?' with
           | Some i -> Stdlib.String.sub target (i + 1) (Stdlib.String.length target - i - 1) | None -> "" in
@@ -77,7 +80,13 @@ let () =
             | Some b -> "200:body:" ^ hex_of_bytes b
             | None -> "panic"
           end else "proxy"
-        | Some (Server.SWsProxy t) -> "ws:" ^ hex_of_bytes t
+        | Some (Server.SWsProxy t) ->
+          (* the echoing mock target answers with what it was handed: the upgrade request re-serialised *)
+          if t = bytes_of_string "@UPE@" then begin
+            match Server.ws_forwarded_text ipp fs files (bytes_of_string "e2e.conf") (bytes_of_string conf) peer req with
+            | Some b -> "200:body:" ^ hex_of_bytes b
+            | None -> "panic"
+          end else "ws:" ^ hex_of_bytes t
         | Some Server.SClosed -> "noresp"
         | Some (Server.SStatic (StaticFs.R200 (b, ct))) ->
           "200:body:" ^ hex_of_bytes b ^ (if with_ct then ":ct:" ^ (match ct with Some c -> hex_of_bytes c | None -> "none") else "")
